@@ -20,3 +20,42 @@ Proof.
   rewrite (env_dialect_parametric d d' cfg icfg p sc) by congruence. reflexivity.
 Qed.
 Print Assumptions c09_script_dialect_parametric.
+
+(** * Agreement across dialects on the core fragment, as a consequence of exactness.
+    Two dialects differ in the trivia their lexers produce (whitespace / comment / meta segments: [noise]), possibly in the
+    default schema handling (none: same [e_cfg]) - and in tree shape, which is the parser's business: suite T3-render of
+    this check compares, per dialect, the parser's tree of every generated statement of the fragment with [r_stmt] and reports
+    per dialect how many agree.  For every dialect (other than vertica, whose extra extractor branch [env_ok] excludes) that lays
+    a statement of the fragment out as [r_stmt] does, the reads and writes are the SPECIFIED ones (Lemma A), hence the same
+    under any two such dialects; likewise the end-to-end column pairs on the single-SELECT fragment (Lemma B). *)
+From SV Require Import Tree.Render Tree.LemmaA Tree.LemmaAProofs Tree.LemmaB Tree.LemmaBProofs.
+
+Theorem c09_core_tables_agree_across_dialects : forall noise1 noise2 e1 e2 s,
+  noise_ok noise1 = true -> noise_ok noise2 = true -> env_ok e1 = true -> env_ok e2 = true -> e_cfg e1 = e_cfg e2 ->
+  stmt_ok s = true -> sshape s = true ->
+  stmt_reads (analyze e1 false (r_stmt noise1 s)) = stmt_reads (analyze e2 false (r_stmt noise2 s)) /\
+  stmt_writes (analyze e1 false (r_stmt noise1 s)) = stmt_writes (analyze e2 false (r_stmt noise2 s)).
+Proof.
+  intros n1 n2 e1 e2 s Hn1 Hn2 He1 He2 Hc Hs Hq.
+  destruct (lemma_A_tables_restricted n1 e1 s Hn1 He1 Hs Hq) as [R1 W1].
+  destruct (lemma_A_tables_restricted n2 e2 s Hn2 He2 Hs Hq) as [R2 W2].
+  rewrite R1, R2, W1, W2, Hc. split; reflexivity.
+Qed.
+Print Assumptions c09_core_tables_agree_across_dialects.
+
+Theorem c09_single_select_columns_agree_across_dialects : forall noise1 noise2 e1 e2 s,
+  noise_ok noise1 = true -> noise_ok noise2 = true -> env_ok e1 = true -> env_ok e2 = true -> e_cfg e1 = e_cfg e2 ->
+  stmt_ok s = true -> sshape s = true -> colshape s = true -> sel_tables_syntactic s = true ->
+  script_pairs e1 false [] [r_stmt noise1 s] = script_pairs e2 false [] [r_stmt noise2 s].
+Proof.
+  intros n1 n2 e1 e2 s Hn1 Hn2 He1 He2 Hc Hs Hq Hcs Hsy.
+  rewrite (lemma_B_tables_colshape n1 e1 s Hn1 He1 Hs Hq Hcs Hsy), (lemma_B_tables_colshape n2 e2 s Hn2 He2 Hs Hq Hcs Hsy), Hc.
+  reflexivity.
+Qed.
+Print Assumptions c09_single_select_columns_agree_across_dialects.
+
+(** non-vacuity: two environments naming different dialects satisfy the hypotheses *)
+Example c09_two_dialects_nonvacuous :
+  env_ok (mk_env "postgres" "" "" {| p_truthy := false; p_cols := [] |} []) = true /\
+  env_ok (mk_env "mysql" "" "" {| p_truthy := false; p_cols := [] |} []) = true.
+Proof. split; reflexivity. Qed.
